@@ -71,12 +71,26 @@ pub fn run_one(case: &Case, tag: &str) -> props::Outcome {
     // every case runs on a fresh OS thread: std's RandomState keys are thread-local and seeded
     // lazily from getrandom (interposed, reset above), so hash iteration order inside fjall
     // is a function of the case seed and not of what ran earlier in this process
-    let r = std::thread::Builder::new()
+    let (tx, rx) = std::sync::mpsc::channel::<()>();
+    let h = std::thread::Builder::new()
         .name("fjsim:case".into())
         .stack_size(32 << 20)
-        .spawn(move || props::run_case(&c, d))
-        .expect("spawn case thread")
-        .join();
+        .spawn(move || {
+            let o = props::run_case(&c, d);
+            let _ = tx.send(());
+            o
+        })
+        .expect("spawn case thread");
+    // watchdog: a case that neither finishes nor trips the scheduler's own detectors is a
+    // harness problem (or a hang the simulator could not attribute); never wait forever
+    let limit: u64 = std::env::var("FJSIM_CASE_TIMEOUT").ok().and_then(|s| s.parse().ok()).unwrap_or(180);
+    if let Err(std::sync::mpsc::RecvTimeoutError::Timeout) = rx.recv_timeout(std::time::Duration::from_secs(limit)) {
+        let mut o = props::Outcome::ok(exec::Stats::default(), 0);
+        o.harness_error = Some(format!("case did not finish within {limit} s (thread leaked)"));
+        std::mem::forget(h);
+        return o;
+    }
+    let r = h.join();
     let out = match r {
         Ok(o) => o,
         Err(_) => {
